@@ -1,6 +1,7 @@
 (* C08 — decoders are total: no panic, no hang, bounded memory. What is
    proved concerns the logic of the models (DESIGN.md: the Go allocator, GC
    and wall time are measured by the harness, not proved). *)
+From V Require Import XFlate.Total XFlate.OpenLocality.
 From V Require Import Window.Dict Window.DictSpec Window.DictThms Window.DictBr Window.DictBrSpec Window.DictBrThms.
 From V Require Import Base.Prelude Base.Prog Flate.Spec Flate.Safe Brotli.Spec Brotli.Safe XFlate.Index XFlate.Reader XFlate.Thms Life.ReadLoop Flate.Safe Flate.Fuel Brotli.Fuel Bzip2.Common Bzip2.SpecR Bzip2.Safe.
 
@@ -118,3 +119,19 @@ Theorem brotli_window_memory_bounded_by_output : forall size recycled ops st0 ob
      d_len st' <= Z.max (Z.min c0 size) (Z.min size (4 * total)))%Z.
 Proof. exact br_memory. Qed.
 Print Assumptions brotli_window_memory_bounded_by_output.
+
+(* THE XFLATE READER ON HOSTILE INPUT (no honesty assumption): opening ANY byte string ends in
+   a Reader or in Corrupted / UnexpectedEOF - never a panic, never an exhausted loop budget
+   (the backward index walk strictly descends by at least 4 bytes per index) ... *)
+Theorem xflate_open_is_total : forall data, (flen data < 2 ^ 42)%N ->
+  match open_reader data with inl e => e = ECorrupted \/ e = EUEOF | inr _ => True end.
+Proof. exact open_reader_total. Qed.
+Print Assumptions xflate_open_is_total.
+
+(* ... and on every stream it opened, every history of Seek / Read / Close ends each call in a
+   documented class; the Read loop's budget suffices whatever the index claims (the decoded
+   table is always sorted because AppendRecord refuses overflow) *)
+Theorem xflate_reader_is_total : forall data s1 ops,
+  open_reader data = inr s1 -> Forall obs_ok (fst (rrun s1 ops)).
+Proof. exact reader_total. Qed.
+Print Assumptions xflate_reader_is_total.
